@@ -2,6 +2,7 @@ import TinsModel.Follower.LemmasIdent
 import TinsModel.Follower.LemmasStep
 import TinsModel.Follower.LemmasSim
 import TinsModel.Follower.LemmasRoute
+import TinsModel.Follower.LemmasDeliver
 /- Property C07 — stream follower tracks connections, directions and lifetimes: the property theorems.
    Model: TinsModel/Follower/Model.lean (code-shaped, generic in the connection key; the code is `keyOf = identOf`).
    Reference: TinsModel/Follower/Spec.lean (`refKeyOf` = family + unordered endpoint pair). -/
@@ -284,6 +285,21 @@ example :
     F.streams.length = 1 ∧
     (∀ e ∈ F.streams, identOf synack = e.1 ∧ synack.v6 = e.2.sid.v6 ∧ e.2.server.packetBelongs synack = true) := by
   decide
+
+/-! ## 7. the payload of a SYN segment (KF-C07-3, fixed) -/
+
+/-- The payload of an initial SYN segment (TCP Fast Open) is handed to the application whole — one client-data callback
+    carrying exactly the payload — by the stream the SYN creates; afterwards the client direction expects the byte after
+    it (`isn + 1 + |d|`) and nothing is buffered.  (Before the fix the first byte was dropped and the direction stalled.) -/
+theorem syn_payload_delivered (acl : Bool) (p : Pkt) (d : Bytes)
+    (hs : p.syn = true) (hr : p.rst = false) (hf : p.fin = false) (hp : p.payload = some d)
+    (h0 : 0 < d.length) (hn : d.length < 2147483648) :
+    (Stream.route { (Stream.ofPacket p acl) with lastSeen := p.ts } p).2 = [SEv.data true d] ∧
+    (Stream.route { (Stream.ofPacket p acl) with lastSeen := p.ts } p).1.client.tr.seq = wrap32 (wrap32 (p.seq + 1) + d.length) ∧
+    (Stream.route { (Stream.ofPacket p acl) with lastSeen := p.ts } p).1.client.tr.buf = [] :=
+  Tins.SF.syn_payload_delivered acl p d hs hr hf hp h0 hn
+
+example : ({ syn4 with payload := some [1, 2, 3] } : Pkt).syn = true ∧ ({ syn4 with payload := some [1, 2, 3] } : Pkt).rst = false := by decide
 
 /-! non-vacuity of sections 4–5 -/
 
